@@ -37,10 +37,13 @@ func (s *hstate) clone() *hstate {
 }
 
 type c12Case struct {
-	World      int      `json:"world"`
-	Clock      int      `json:"clock"`
-	First      int      `json:"first"` // index of the first operation (shard); -1 = none
-	Depth      int      `json:"depth"`
+	World int `json:"world"`
+	Clock int `json:"clock"`
+	First int `json:"first"` // index of the first operation (shard); -1 = none
+	Depth int `json:"depth"`
+	// Alphabet 1 restricts the operations to configuration edits and runs (no artifact damage,
+	// no add/remove), which allows one more level of depth
+	Alphabet   int      `json:"alphabet,omitempty"`
 	Trace      []int    `json:"trace,omitempty"` // replay: exact operation sequence (indexes into the op list of each state)
 	TraceNames []string `json:"traceNames,omitempty"`
 }
@@ -143,8 +146,25 @@ func c12Foreign(alias string) []byte {
 	return b
 }
 
+var c12ConfigOnly = false
+
+func c12FilterOps(ops []c12Op) []c12Op {
+	if !c12ConfigOnly {
+		return ops
+	}
+	var out []c12Op
+	for _, o := range ops {
+		if o.IsRun || strings.HasPrefix(o.Name, "edit-") || strings.HasPrefix(o.Name, "switch-issuer") || strings.HasPrefix(o.Name, "toggle-profile") || strings.HasPrefix(o.Name, "profile-edit") {
+			out = append(out, o)
+		}
+	}
+	return out
+}
+
 // c12Ops lists the operations enabled in a state, in a fixed order.
-func c12Ops(s *hstate, allowAdd bool) []c12Op {
+func c12Ops(s *hstate, allowAdd bool) []c12Op { return c12FilterOps(c12AllOps(s, allowAdd)) }
+
+func c12AllOps(s *hstate, allowAdd bool) []c12Op {
 	var ops []c12Op
 	for _, r := range []struct {
 		n string
@@ -672,6 +692,7 @@ func c12Step(x *engine.Ctx, n *c12Node, opIdx int, allowAdd bool, replay *c12Cas
 
 func c12Exec(x *engine.Ctx, cc any) {
 	c := cc.(*c12Case)
+	c12ConfigOnly = c.Alphabet == 1
 	allowAdd := c.World != 2
 	root := &c12Node{s: c12Initial(c.World, c.Clock)}
 	if c.Trace != nil { // replay
@@ -726,6 +747,17 @@ func c12Exec(x *engine.Ctx, cc any) {
 }
 
 func c12Enumerate(tier string, yield func(any)) {
+	if tier == "thorough" {
+		// one level deeper over configuration edits and runs only
+		c12ConfigOnly = true
+		for clock := 0; clock < 2; clock++ {
+			nops := len(c12Ops(c12Initial(0, clock), false))
+			for f := 0; f < nops; f++ {
+				yield(&c12Case{World: 0, Clock: clock, First: f, Depth: 5, Alphabet: 1})
+			}
+		}
+		c12ConfigOnly = false
+	}
 	depth := 3
 	worlds := []int{0, 1}
 	if tier == "thorough" {
@@ -750,8 +782,8 @@ func init() {
 	register(&engine.Check{
 		ID:          "C12",
 		Level:       "model_checking",
-		Rule:        "breadth-first search over operation histories from 2 (quick) / 3 (thorough) initial worlds (chain of 3 with a profile on the leaf; root with two subs; 5 entities) x 2 clock modes. Operations per entity: edit subject / extensions / validity (3 shapes incl. until-without-from), switch issuer to another valid issuer, attach/detach profile, touch config, delete artifact, truncate after the hash line, strip key block, cut inside the certificate block, replace by a foreign certificate+key without hash line, remove entity (leaves), add entity; per profile: edit extension content, edit validity; runs: default, -a, -o only, -e only, -m only, -c only. All histories up to depth 3 (quick) / 4 (thorough), deduplicated per shard on the canonical state key (normalised config ASTs, artifacts abstracted to hash line + certificate shape with keys as indices and serial/signature dropped, mtimes as rank order); shards = first operation. Oracle after every successful default-flag run: every entity complete; every hash-carrying certificate equals the reference translation of its current effective configuration AND the shape of the certificate a clean run of gopki produces for the same files, and verifies under its issuer's current certificate; complete hash-less artifacts untouched unless issuer regenerated/newer; one more default run is a no-op. states = union of canonical states over shards, transitions = operations executed on the real code (every explored transition is an implementation trace)",
-		Bound:       map[string]string{"depth": "quick 3, thorough 4 (5-entity world 3)", "entities": "3 (5 in thorough)"},
+		Rule:        "breadth-first search over operation histories from 2 (quick) / 3 (thorough) initial worlds (chain of 3 with a profile on the leaf; root with two subs; 5 entities) x 2 clock modes. Operations per entity: edit subject / extensions / validity (3 shapes incl. until-without-from), switch issuer to another valid issuer, attach/detach profile, touch config, delete artifact, truncate after the hash line, strip key block, cut inside the certificate block, replace by a foreign certificate+key without hash line, remove entity (leaves), add entity; per profile: edit extension content, edit validity; runs: default, -a, -o only, -e only, -m only, -c only. All histories up to depth 3 (quick) / 4 (thorough; and depth 5 over the configuration-edit and run operations only, on the 3-chain), deduplicated per shard on the canonical state key (normalised config ASTs, artifacts abstracted to hash line + certificate shape with keys as indices and serial/signature dropped, mtimes as rank order); shards = first operation. Oracle after every successful default-flag run: every entity complete; every hash-carrying certificate equals the reference translation of its current effective configuration AND the shape of the certificate a clean run of gopki produces for the same files, and verifies under its issuer's current certificate; complete hash-less artifacts untouched unless issuer regenerated/newer; one more default run is a no-op. states = union of canonical states over shards, transitions = operations executed on the real code (every explored transition is an implementation trace)",
+		Bound:       map[string]string{"depth": "quick 3, thorough 4 (5-entity world 3; config-edit+run alphabet 5)", "entities": "3 (5 in thorough)"},
 		Assumptions: []string{"nothing is demanded after a run that fails (dangling issuer etc.: C18)", "key type of re-used keys versus a clean run is not compared", "crashes are counted and left to C20"},
 		Budget:      budgets(quickBudget, thoroughBudget),
 		Enumerate:   c12Enumerate,
